@@ -21,6 +21,18 @@ releases the lock.
 The model is of the code **with fixes/C03-dispatch-on-current-state.patch applied**
 (`Mode.current`). `Mode.captured` is the wrapper of the pinned commit, kept for the counterexample
 theorem and for cross-checking the model against the unpatched tree.
+
+Cancelled callers (`XOp.cancelCaller`). A request runs in the task of its caller (nothing in state.py
+or in `TransferManager.abort/queue/pause` shields it), so when that task is cancelled — `task.cancel()`,
+the time-out of an `asyncio.wait_for` around the request, shutdown — `CancelledError` is raised at the
+`await` the request is suspended in: the wait for the lock (`asyncio.Lock.acquire` takes the waiter out
+of the queue), or, for the lock holder, the slow step — and then unwinds through the `async with` of the
+wrapper, which releases the lock (`abandon`). What the request had done so far stays done, it does nothing
+more, and nothing of it runs outside the lock.
+
+Transfers read from the cache (`load`, `XOp.reload`): `Transfer.__setstate__` (model.py:129-153) and
+`TransferManager.read_cache` (manager.py:151-171) repair a stored record *before* `TransferManager.add`
+registers the first listener; a record whose transfer the manager already holds is repaired and dropped.
 -/
 namespace AioslskVerif.Transfer
 open AioslskVerif.Generated.Transfer
@@ -78,21 +90,27 @@ structure Cfg where
   returns (an environment step lets it return), `false` = it returns without the environment -/
   listeners : List Bool := [false]
   mode : Mode := .current
+  /-- a task that has been cancelled and is cancelled *again* (which is what cancelling the `gather` that
+  waits for it does) does not end any sooner: it shields its tear-down -/
+  stubborn : Bool := false
 deriving Repr, DecidableEq
 
 /-- Ghost trace (newest first): who did what. `trans` is the assignment `self.state = state` of
 `Transfer.transition`; `event id li old new` is what listener number `li` of `state_listeners`
-receives. -/
+receives; `cancelled id` = the caller of invocation `id` got `CancelledError` instead of a result. -/
 inductive Item
   | eff (id : Nat) (e : Eff)
   | trans (id : Nat) (old new : St)
   | event (id : Nat) (li : Nat) (old new : St)
   | ret (id : Nat) (ok : Bool)
+  | cancelled (id : Nat)
 deriving Repr, DecidableEq
 
 /-- The lock holder, suspended: in front of the first effect of `rest` (a slow step), or — when
 `notified` — inside listener number `pos`, after `Transfer.transition` has assigned the new state
-(`old` = its local `old_state`). -/
+(`old` = its local `old_state`). `abandoned`: its caller has been cancelled while it waited for the tasks
+it cancelled, and those have not ended yet (`Cfg.stubborn`): it will do nothing more, but it owns the lock
+until they have. -/
 structure Pending where
   call : Call
   target : St
@@ -100,6 +118,7 @@ structure Pending where
   notified : Bool := false
   old : St := .virgin
   pos : Nat := 0
+  abandoned : Bool := false
 deriving Repr, DecidableEq
 
 structure XState where
@@ -110,6 +129,9 @@ structure XState where
   waiters : List Call := []         -- callers waiting for the lock, oldest first
   created : List Call := []         -- coroutine objects created but not yet scheduled
   trace : List Item := []
+  /-- ghost: how many times a cancellation cut the loop over `state_listeners` short while a listener
+  that had not yet been told was still to come -/
+  cuts : Nat := 0
 deriving Repr, DecidableEq
 
 /-- Does the effect statement suspend the method (waiting for the environment)? -/
@@ -148,7 +170,7 @@ def notifyFrom (c : Call) (old : St) : List Bool → Nat → XState → XState
   | [], _, x => { x with holder := none, trace := .ret c.id true :: x.trace }
   | g :: gs, pos, x =>
     let x' := { x with trace := .event c.id pos old x.cur :: x.trace }
-    if g then { x' with holder := some ⟨c, x.cur, [], true, old, pos⟩ }
+    if g then { x' with holder := some { call := c, target := x.cur, rest := [], notified := true, old := old, pos := pos } }
     else notifyFrom c old gs (pos + 1) x'
 
 /-- The body of a state method from its first remaining effect on: run effects until one blocks
@@ -192,6 +214,38 @@ def arrive (cfg : Cfg) (c : Call) (x : XState) : XState :=
   | some _ => { x with waiters := x.waiters ++ [c] }
   | none => drain cfg (x.waiters ++ [c]) x
 
+/-- The cancelled tasks the abandoned lock holder `p` waited for have ended: `gather` ends with
+`CancelledError`, which unwinds through the wrapper (lock released). The method body goes no further. -/
+def tasksEnded (p : Pending) (x : XState) : XState :=
+  { x with holder := none, f := { x.f with tasksLive := false },
+           trace := .cancelled p.call.id :: .eff p.call.id .cancelTasks :: x.trace }
+
+/-- The caller of the suspended lock holder `p` is cancelled: `CancelledError` is raised at the `await`
+the method is suspended in.
+* Inside listener `p.pos` (the state is already assigned, model.py:232-237): the loop over
+  `state_listeners` is left — the listeners after `p.pos` are not told this change (`cuts`) — and the lock
+  is released.
+* In `asyncio.gather(*self.transfer.cancel_tasks(), return_exceptions=True)` (state.py:146-147):
+  cancelling a `gather` cancels its children (again) and the `gather` only ends, with `CancelledError`,
+  once every child has ended — at once when a second cancellation ends them, otherwise (`Cfg.stubborn`)
+  the request stays the lock holder, `abandoned`, until the environment lets them end (`XOp.resume`).
+* In the file-system call of `_remove_local_file` (state.py:27-39; only `OSError` is caught): nothing has
+  been removed, `local_path` is kept, the lock is released. -/
+def abandon (cfg : Cfg) (p : Pending) (x : XState) : XState :=
+  if p.notified then
+    { x with holder := none, trace := .cancelled p.call.id :: x.trace,
+             cuts := if p.pos + 1 < cfg.listeners.length then x.cuts + 1 else x.cuts }
+  else
+    match p.rest with
+    | .cancelTasks :: _ =>
+      if cfg.stubborn then { x with holder := some { p with abandoned := true } } else tasksEnded p x
+    | _ => { x with holder := none, trace := .cancelled p.call.id :: x.trace }
+
+/-- the waiters without the (oldest) one of invocation `id`, if there is one -/
+def removeWaiter (id : Nat) : List Call → Option (List Call)
+  | [] => none
+  | c :: cs => if c.id = id then some cs else (removeWaiter id cs).map (c :: ·)
+
 inductive XOp
   | create (c : Call)   -- `co = transfer.state.<meth>(…)`: looks the state object up, runs nothing
   | start (id : Nat)    -- the coroutine is scheduled (task / gather) and reaches the lock
@@ -200,6 +254,8 @@ inductive XOp
   | spawn               -- the manager attaches fresh tasks to the transfer
   | setFile             -- local_path is set and the file exists (a download opened its file)
   | tick                -- the clock advances
+  | cancelCaller (id : Nat)   -- the task that awaits invocation `id` is cancelled (time-out, shutdown)
+  | reload              -- `write_cache()` then `read_cache()` on the same manager (stop/start of a client)
 deriving Repr, DecidableEq
 
 def findCall (id : Nat) : List Call → Option Call
@@ -218,7 +274,8 @@ def step (cfg : Cfg) (x : XState) : XOp → XState
     | none => x
     | some p =>
       let x' :=
-        if p.notified then      -- listener `p.pos` returns; the loop goes on with the next one
+        if p.abandoned then tasksEnded p x
+        else if p.notified then      -- listener `p.pos` returns; the loop goes on with the next one
           notifyFrom p.call p.old (cfg.listeners.drop (p.pos + 1)) (p.pos + 1) x
         else runEffs cfg p.call p.target p.rest true x
       match x'.holder with
@@ -227,11 +284,54 @@ def step (cfg : Cfg) (x : XState) : XOp → XState
   | .spawn => { x with f := { x.f with tasksLive := true } }
   | .setFile => { x with f := { x.f with localPath := true, fileExists := true } }
   | .tick => { x with now := x.now + 1 }
+  | .cancelCaller id =>
+    match x.holder with
+    | none => x             -- nobody holds the lock, so nobody waits for it: no such request in flight
+    | some p =>
+      if p.call.id = id then
+        if p.abandoned then x       -- already cancelled; it waits for its tasks whatever is cancelled again
+        else
+          let x' := abandon cfg p x
+          match x'.holder with
+          | some _ => x'
+          | none => drain cfg x'.waiters x'
+      else
+        -- a caller waiting for the lock: `Lock.acquire` takes it out of the queue, it never ran
+        match removeWaiter id x.waiters with
+        | some ws => { x with waiters := ws, trace := .cancelled id :: x.trace }
+        | none => x
+  -- the stored copy is repaired and then dropped: `TransferManager.add` finds the transfer it already
+  -- holds (`Transfer.__eq__`, manager.py:336-339) and returns that one, untouched
+  | .reload => x
 
 def run (cfg : Cfg) (x : XState) (ops : List XOp) : XState := ops.foldl (step cfg) x
 
 /-- a transfer in state `s` with fields `f`, lock free, nothing pending -/
 def init (s : St) (f : Fields) : XState := { cur := s, f := f }
+
+/-- What becomes of a record stored in state `stored` with fields `f` when the cache is read
+(`whole` = `is_transfered()`: `filesize == bytes_transfered`), up to the moment `TransferManager.add`
+registers the first listener and emits `TransferAddedEvent` — where an application can first attach its
+own listeners:
+* `Transfer.__setstate__` (model.py:129-153): a fresh lock, no tasks, **no listeners**; an `ABORTED`
+  record without `abort_reason` gets `AbortReason.REQUESTED`;
+* `read_cache` (manager.py:154-171): `remotely_queued = False`; `INITIALIZING` goes back to `QUEUED` through
+  `await transfer.state.queue()` — the ordinary lock-wrapped method, on a transfer nobody else knows yet
+  and that has no listener (`listeners := []`); a transferring record is **assigned** `COMPLETE` or
+  `INCOMPLETE` (no `transition()`, nobody is told) and its time variables are reset.
+The result starts a new life: empty trace, lock free, listeners as `cfg` says from here on. -/
+def load (cfg : Cfg) (stored : St) (f : Fields) (whole : Bool) : XState :=
+  let f1 : Fields := { f with tasksLive := false, remotelyQueued := false,
+                              abortReason := if stored = .aborted ∧ f.abortReason = none
+                                             then some requestedReason else f.abortReason }
+  match stored with
+  | .initializing =>
+    let x := arrive { cfg with listeners := [] } { id := 0, meth := .queue, captured := .initializing }
+      (init .initializing f1)
+    init x.cur x.f
+  | .downloading | .uploading =>
+    init (if whole then .complete else .incomplete) { f1 with startTime := none, completeTime := none }
+  | s => init s f1
 
 /-- the `(old, new)` pairs listeners were given (all listeners), oldest first -/
 def events (x : XState) : List (St × St) :=
